@@ -394,7 +394,8 @@ func genLoc(r *rand.Rand, n int, tier string) []Case {
 
 func genLocCase(r *rand.Rand, prof string) Case {
 	g := newG(r)
-	lg := &locGen{g: g, r: r, profile: prof, sem: map[string]interface{}{}}
+	// (rulePat's action is the script "1": every case's table knows it)
+	lg := &locGen{g: g, r: r, profile: prof, sem: map[string]interface{}{"1": map[string]interface{}{"t": "const", "v": 1.0}}}
 	nids := 3 + r.Intn(3)
 	for k := 0; k < nids; k++ {
 		lg.ids = append(lg.ids, fmt.Sprintf("i%d", k))
